@@ -173,13 +173,30 @@ def run_check(pid, rules, tier, model_factory, level='other',
     try:
         model = model_factory()
         results = []
+        # A rule that cannot do its job (anchor vanished, floor not met)
+        # must not hide what the other rules of the property find: its
+        # error is recorded, the remaining rules still run.  The run ends
+        # with exit 1 if any rule reports an unlisted finding (a finding is
+        # independent of the rule that could not decide) and with exit 2
+        # (no verdict) otherwise.
+        rule_errors = []
         for rule in rules:
-            res = rule(model)
-            if isinstance(res, RuleResult):
-                res = [res]
-            for r in res:
-                r.check_controls()
-                results.append(r)
+            try:
+                res = rule(model)
+                if isinstance(res, RuleResult):
+                    res = [res]
+                for r in res:
+                    r.check_controls()
+            except AnalysisError as e:
+                rule_errors.append(str(e))
+                continue
+            except Exception:
+                traceback.print_exc()
+                rule_errors.append(
+                    f'{getattr(rule, "__name__", "rule")}: internal error '
+                    'in analyser')
+                continue
+            results.extend(res)
         selfval = None
         if tier == 'thorough' and thorough_extra is not None:
             selfval = thorough_extra(model, results)
@@ -255,6 +272,13 @@ def run_check(pid, rules, tier, model_factory, level='other',
             return 2
 
     replay = None
+    if rule_errors and not viol:
+        for e in rule_errors:
+            print(f'ANALYSIS-ERROR property={pid} {e}')
+        return 2
+    for e in rule_errors:
+        print(f'RULE-ERROR property={pid} {e} (no verdict from this rule; '
+              'the findings of the other rules stand)')
     if viol:
         rep_dir = os.path.join(OUT_DIR, 'reports', pid)
         os.makedirs(rep_dir, exist_ok=True)
